@@ -201,6 +201,15 @@ func (v Val) Go() any {
 		p := reflect.New(reflect.TypeOf(inner))
 		p.Elem().Set(reflect.ValueOf(inner))
 		return p.Interface()
+	case "dyn":
+		// one of arbitrarily many distinct struct types (reflect.StructOf): what a process that
+		// renders many kinds of view models passes over its lifetime
+		ft := reflect.TypeOf("")
+		typ := reflect.StructOf([]reflect.StructField{{Name: "Name", Type: ft}, {Name: fmt.Sprintf("Extra%d", v.I), Type: ft}})
+		p := reflect.New(typ).Elem()
+		p.Field(0).SetString(fmt.Sprintf("dyn%d", v.I))
+		p.Field(1).SetString("x")
+		return p.Interface()
 	case "nilptr":
 		// a typed nil pointer: the conversion of data dereferences it
 		return (*struct{ Name string })(nil)
